@@ -681,7 +681,9 @@ func replyDelUser(s *Session, msg *ClientComMessage) {
 	if s.uid == uid && s.multi == nil {
 		// Evict the current session if it belongs to the deleted user.
 		// No need to send it to multiplexing session: remote node will be notified separately.
-		_, data := s.serialize(NoErrEvicted("", "", msg.Timestamp))
+		// The write loop may take this notice before the queued reply above and then drops the reply:
+		// the notice carries the request id too, so that the request is answered either way.
+		_, data := s.serialize(NoErrEvicted(msg.Id, "", msg.Timestamp))
 		s.stopSession(data)
 	}
 }
